@@ -9,21 +9,43 @@ PROPERTY = "C57"
 OBS = "logger/_observer.py"
 FIL = "logger/_filter.py"
 BUF = "logger/_buffer.py"
-TECHNIQUE = "concrete interpretation of publisher, filters, history over all short histories"
+TECHNIQUE = "CFG dominance, must-precede, who-may-write on normalised code; interpreted histories as second layer"
 EXPLANATION = (
-    "All three anchored classes are interpreted from their AST (private helpers and module functions followed) against recording "
-    "observer models and compared with the specification. LogPublisher: every history of <= 4 addObserver / removeObserver calls "
-    "over two healthy and two raising observers (states de-duplicated); in every reached state a plain and a traced event are "
-    "published and the global journal must be: each registered observer exactly once in registration order with the event itself, "
-    "then, per raising observer, a failure event (OBSERVER_DISABLED, its Failure, observer=it) to every other observer, recursively; "
-    "log_trace must list (publisher, observer) per delivery; constructor order, non-callable rejection. LogLevelFilterPredicate: "
-    "every history of length <= 5 of set / clear / query on a three-namespace prefix chain with two levels against the "
-    "most-specific-configured-prefix oracle, and __call__ == `no` exactly when eventLevel < that level. shouldLogEvent / "
-    "FilteringLogObserver: all predicate-result sequences of length <= 3 (first yes/no decides, predicates asked in order and no "
-    "further, invalid result raises, wrapped vs negative observer, trace). LimitedHistoryLogObserver: sizes 1, 2, 3, None, default "
-    "x 6 events, two replays after each event must both yield the last N events oldest first. Not decided: observer lists mutated "
-    "during dispatch, behaviour of twisted.logger.Logger beyond failure() emitting one event to its observer (modelled)."
+    "Structural, on a normalised view (private helpers inlined at call sites, pure temporaries substituted): LogPublisher.__call__ walks "
+    "self._observers front to back; the observer call-out is made exactly once per iteration with the event, inside a try whose handler "
+    "stops Exception without re-raising and records (observer, Failure()); the loop cannot be left early; every failure report lies "
+    "outside the fan-out loop and is dominated by it (must-precede), is built for the broken observer of its record and carries the "
+    "recorded Failure, once per record; the error publisher is made of every registered observer that `is not` the broken one, in order "
+    "(comprehension or guarded-append form, guard polarity checked); _observers is never modified by an order-destroying operation in any "
+    "method and only appended to under a not-in guard. shouldLogEvent: predicates asked once each in the given order, `return True/False` "
+    "inside the loop only under == yes / == no, continue only under maybe, default True; FilteringLogObserver routes to the wrapped "
+    "observer exactly under shouldLogEvent and to the negative observer otherwise, every event routed. LogLevelFilterPredicate: levels "
+    "are stored under the given namespace (or '') with the given level; every method that writes the level table also discards any "
+    "derived attribute the lookup fills (cache coherence); the event level and threshold are used only in comparisons. "
+    "LimitedHistoryLogObserver: the buffer is deque(maxlen=size) (constructor provenance through locals), only appended to with the "
+    "event on every call, never shortened / reordered by any method, replay walks it forward calling the other observer once per event. "
+    "Finite-exhaustive: __call__ == `no` exactly when eventLevel < threshold, over all orderings of the two levels (complete because the "
+    "levels are only compared). Bounded second layer (interpreted): publisher histories of <= 4 add/remove operations with two healthy "
+    "and two raising observers against a recursive delivery specification; filter set/clear/query histories of length <= 5 against the "
+    "most-specific-prefix oracle; all verdict sequences of length <= 3; history sizes x 6 events x 2 replays. Clause 'most specific "
+    "configured prefix wins': bounded evidence only (namespace depth <= 4) - the index arithmetic of the prefix search has no "
+    "shape-independent structural formulation. Not decided: observer lists mutated during dispatch."
 )
+RULE_KINDS = {
+    # structural: CFG dominance / must-precede, def-use, who-may-write on the normalised view (private helpers inlined)
+    "publisher/forward-iteration": "structural", "publisher/delivers-the-event": "structural", "publisher/observer-failure-contained": "structural",
+    "publisher/one-delivery-per-observer": "structural", "publisher/loop-runs-to-completion": "structural", "publisher/failure-recorded": "structural",
+    "publisher/failures-reported-after-loop": "structural", "publisher/failure-reported": "structural", "publisher/report-excludes-broken-observer": "structural",
+    "publisher/registration-order-preserved": "structural", "publisher/single-registration": "structural",
+    "filter/predicate-verdicts": "structural", "filter/forwards-iff-should-log": "structural", "filter/level-decision-domain": "structural",
+    "filter/derived-state-invalidated": "structural", "filter/table-written-under-namespace": "structural",
+    "history/bounded-by-size": "structural", "history/appends-at-the-end": "structural", "history/replays-forward": "structural", "history/replays-each-once": "structural",
+    # finite-exhaustive: the decision uses the two levels only in comparisons (filter/level-decision-domain), all orderings are enumerated
+    "filter/level-decision": "finite-exhaustive",
+    # bounded: source interpreted on enumerated histories
+    "publisher/delivery": "bounded", "publisher/failure-reports": "bounded", "publisher/registration": "bounded", "publisher/trace": "bounded",
+    "filter/most-specific-prefix": "bounded", "filter/verdict-sequences": "bounded", "filter/routing-sequences": "bounded", "history/last-n-in-order": "bounded",
+}
 ASSUMPTIONS = [
     "observers are called synchronously; BaseException (KeyboardInterrupt, SystemExit) deliberately propagates",
     "LogLevel constants are ordered by severity (NamedConstant ordering)",
@@ -277,13 +299,13 @@ def check_filtering(ctx):
         invalid = None
     except Exception as e:
         invalid = f"raises {type(e).__name__}"
-    ctx.check(bad_s is None, "filter/predicate-verdicts", qs,
+    ctx.check(bad_s is None, "filter/verdict-sequences", qs,
               (f"predicate results {bad_s[0]} give {bad_s[1]!r} after asking predicates {bad_s[2]}: the first yes/no decides, only maybe consults the next, none means log" if bad_s else ""),
               detail=f"{n} result sequences")
-    ctx.check(invalid is None, "filter/predicate-verdicts", qs + " | invalid result", f"a result that is not a PredicateResult is {invalid} instead of raising TypeError")
-    ctx.check(bad_o is None, "filter/forwards-iff-should-log", qo + ".__call__",
+    ctx.check(invalid is None, "filter/verdict-sequences", qs + " | invalid result", f"a result that is not a PredicateResult is {invalid} instead of raising TypeError")
+    ctx.check(bad_o is None, "filter/routing-sequences", qo + ".__call__",
               (f"with predicate results {bad_o[0]} the event goes to {bad_o[1]}: the wrapped observer gets it exactly when shouldLogEvent says so, otherwise the negative observer" if bad_o else ""))
-    ctx.check(bad_t is None, "filter/forwards-iff-should-log", qo + ".__call__ | log_trace",
+    ctx.check(bad_t is None, "filter/routing-sequences", qo + ".__call__ | log_trace",
               (f"log_trace after forwarding is {bad_t[1]}" if bad_t else ""))
 
 
@@ -438,7 +460,422 @@ def check_filter_histories(ctx):
     ctx.extra["filter_evaluations"] = n_eval
 
 
+# ==== structural layer (normalised view: private helpers inlined, pure temporaries substituted) =====================================
+import ast  # noqa: E402
+
+from sa.astx import call_name, src, walk_local  # noqa: E402
+from sa.effects import class_accesses  # noqa: E402
+from sa.props._lib_k import LEVELS, protection  # noqa: E402
+
+QO = "twisted.logger._observer.LogPublisher."
+ORDER_DESTROYING = {"insert0", "insert", "sort", "reverse", "setitem", "delitem", "pop_last", "pop_first", "pop_key", "appendleft", "extendleft",
+                    "del-prefix", "del-slice", "clear"}
+
+
+def _norm(ctx, rel, known=()):
+    from sa.props._lib_j import Normaliser
+    try:
+        return Normaliser(ctx.mod(rel), set(known)).run()
+    except RecursionError:
+        return ctx.mod(rel)
+
+
+def _abstain(ctx, rule, why, bounded):
+    ctx.note(f"{rule}: shape not recognised ({why}); clause left to the bounded rule {bounded}")
+
+
+def _is_self_attr(n, name):
+    return isinstance(n, ast.Attribute) and n.attr == name and isinstance(n.value, ast.Name) and n.value.id == "self"
+
+
+def _no_exc(a, b, l):
+    return l != "exc"
+
+
+def _forward_view(it, attr):
+    """'forward' when the iterable is self.<attr> or an order-preserving copy of it, 'transformed' for reversed/sorted/set, else None."""
+    if _is_self_attr(it, attr):
+        return "forward"
+    if isinstance(it, ast.Call) and isinstance(it.func, ast.Name) and len(it.args) == 1 and _is_self_attr(it.args[0], attr):
+        if it.func.id in ("list", "tuple", "iter"):
+            return "forward"
+        if it.func.id in ("reversed", "sorted", "set", "frozenset"):
+            return "transformed"
+    if isinstance(it, ast.Subscript) and _is_self_attr(it.value, attr) and isinstance(it.slice, ast.Slice):
+        sl = it.slice
+        if sl.lower is None and sl.upper is None and sl.step is None:
+            return "forward"
+        return "transformed"
+    return None
+
+
+def check_publisher_structure(ctx):
+    nm = _norm(ctx, OBS, known={"_errorLoggerForObserver"})
+    f = nm.find("LogPublisher.__call__")
+    cls = nm.find("LogPublisher")
+    ctx.need(isinstance(f, ast.FunctionDef) and isinstance(cls, ast.ClassDef), "LogPublisher.__call__")
+    g = ctx.cfg(f)
+    q = QO + "__call__"
+    ev = f.args.args[1].arg
+    loops = [n for n in walk_local(f) if isinstance(n, ast.For)]
+    views = [(lp, _forward_view(lp.iter, "_observers")) for lp in loops]
+    for lp, v in views:
+        if v == "transformed":
+            ctx.violation("publisher/forward-iteration", q + " | fan-out order", f"observers are visited through {src(lp.iter)}, not in registration order")
+    fan = [lp for lp, v in views if v == "forward" and isinstance(lp.target, ast.Name)]
+    if len(fan) != 1:
+        if not any(v == "transformed" for _, v in views):
+            _abstain(ctx, "publisher/*", "no single loop over self._observers in __call__", "publisher/delivery")
+        return
+    ctx.ok("publisher/forward-iteration", q + " | fan-out order", "the loop walks self._observers front to back")
+    lp = fan[0]
+    ov = lp.target.id
+    head = g.ids_of(lp)[0]
+    calls = [c for c in ast.walk(lp) if isinstance(c, ast.Call) and isinstance(c.func, ast.Name) and c.func.id == ov]
+    if not calls:
+        _abstain(ctx, "publisher/observer-failure-contained", "no direct observer(...) call in the fan-out loop", "publisher/delivery")
+        return
+    for c in calls:
+        k = q + " | observer call-out"
+        ctx.check(len(c.args) == 1 and src(c.args[0]) == ev and not c.keywords, "publisher/delivers-the-event", k, "the observer is not called with the event itself")
+        lv = protection(c, f)
+        ctx.check(LEVELS[lv] >= 1, "publisher/observer-failure-contained", k,
+                  "an exception raised by one observer leaves the fan-out loop: the remaining observers never see the event", detail=f"handler level {lv}")
+        cid = g.ids_of(c)
+        starts = [d for d, l in g.succ[head] if l == "iter"]
+        p = g.path([s for s in starts if s not in cid], [head, g.exit], avoid=cid, edge_ok=_no_exc)
+        ctx.check(p is None, "publisher/one-delivery-per-observer", k + " | every iteration", "an observer can be skipped", witness=g.describe(p))
+        p = g.path(cid, cid, avoid=[head], strict=True)
+        ctx.check(p is None, "publisher/one-delivery-per-observer", k + " | not repeated", "an observer can receive the event twice", witness=g.describe(p))
+    body_nodes = [n.id for n in g.nodes if n.ast is not None and n.kind in ("stmt", "test", "handler") and any(n.ast is x for x in ast.walk(lp)) and g.reachable(n.id)]
+    done = {d for d, l in g.succ[head] if l == "done"}
+    p = g.path(body_nodes, [g.exit, g.raise_exit] + list(done), avoid=[head], edge_ok=_no_exc)
+    ctx.check(p is None, "publisher/loop-runs-to-completion", q + " | fan-out loop", "the fan-out loop can be left before every observer was served", witness=g.describe(p))
+    w = g.must_pass([g.entry], [head], exc=False)
+    ctx.check(w is None, "publisher/loop-runs-to-completion", q + " | reached", "__call__ can return without fanning the event out", witness=g.describe(w))
+    # the handler records (observer, Failure())
+    tries = [t for t in ast.walk(lp) if isinstance(t, ast.Try) and any(x is calls[0] for b in t.body for x in ast.walk(b))]
+    rec_list = None
+    for t in tries:
+        for h in t.handlers:
+            apps = [c for b in h.body for c in ast.walk(b) if isinstance(c, ast.Call) and isinstance(c.func, ast.Attribute) and c.func.attr in ("append", "add")]
+            good = [a for a in apps if len(a.args) == 1 and isinstance(a.args[0], ast.Tuple) and len(a.args[0].elts) == 2 and src(a.args[0].elts[0]) == ov
+                    and isinstance(a.args[0].elts[1], ast.Call) and call_name(a.args[0].elts[1]) == "Failure" and not a.args[0].elts[1].args]
+            if good:
+                rec_list = src(good[0].func.value)
+                ctx.ok("publisher/failure-recorded", q + " | handler of the observer call-out", "(observer, Failure()) is recorded")
+            elif not apps and not any(isinstance(x, ast.Call) for b in h.body for x in ast.walk(b)):
+                ctx.violation("publisher/failure-recorded", q + " | handler of the observer call-out",
+                              "a failing observer is swallowed without (observer, Failure()) being recorded for the report")
+            else:
+                _abstain(ctx, "publisher/failure-recorded", "handler records the failure in an unrecognised way", "publisher/failure-reports")
+    # reports: .failure(...) on the logger for the broken observer
+    reports = [c for c in walk_local(f) if isinstance(c, ast.Call) and isinstance(c.func, ast.Attribute) and c.func.attr == "failure"
+               and any(isinstance(x, ast.Call) and call_name(x) == "self._errorLoggerForObserver" for x in ast.walk(c.func.value))]
+    if not reports:
+        # logger bound to a local first
+        loggers = {t.id for st in walk_local(f) if isinstance(st, ast.Assign) and isinstance(st.value, ast.Call) and call_name(st.value) == "self._errorLoggerForObserver"
+                   for t in st.targets if isinstance(t, ast.Name)}
+        reports = [c for c in walk_local(f) if isinstance(c, ast.Call) and isinstance(c.func, ast.Attribute) and c.func.attr == "failure"
+                   and isinstance(c.func.value, ast.Name) and c.func.value.id in loggers]
+    if not reports:
+        _abstain(ctx, "publisher/failures-reported-after-loop", "no errorLogger.failure(...) call found in __call__", "publisher/failure-reports")
+    for rc in reports:
+        k = q + " | failure report"
+        inside = any(x is rc for x in ast.walk(lp))
+        ctx.check(not inside, "publisher/failures-reported-after-loop", k + " | placement",
+                  "failures are reported inside the fan-out loop (error events overtake the event being delivered)")
+        rid = g.ids_of(rc)
+        if not inside:
+            w = g.must_precede([head], rid)
+            ctx.check(w is None, "publisher/failures-reported-after-loop", k + " | after the fan-out", "a failure report can run without the fan-out having run", witness=g.describe(w))
+        rloop = next((l2 for l2 in loops if l2 is not lp and any(x is rc for x in ast.walk(l2))), None)
+        if rloop is not None and rec_list is not None and isinstance(rloop.target, ast.Tuple) and len(rloop.target.elts) == 2:
+            ctx.check(src(rloop.iter) == rec_list, "publisher/failure-reported", k + " | over the recorded failures", "the report loop does not walk the list the handler fills")
+            bo, fl = src(rloop.target.elts[0]), src(rloop.target.elts[1])
+            kws = {k_.arg: src(k_.value) for k_ in rc.keywords}
+            mk = [x for x in ast.walk(rloop) if isinstance(x, ast.Call) and call_name(x) == "self._errorLoggerForObserver"]
+            ctx.check(len(mk) == 1 and len(mk[0].args) == 1 and src(mk[0].args[0]) == bo, "publisher/report-excludes-broken-observer", k + " | logger built for the broken observer",
+                      "the error logger is not built for the broken observer of this record")
+            ctx.check(kws.get("failure") == fl, "publisher/failure-reported", k + " | carries the recorded Failure", "the recorded Failure is not what is reported")
+            rhead = g.ids_of(rloop)[0]
+            st = [d for d, l in g.succ[rhead] if l == "iter"]
+            p = g.path([s_ for s_ in st if s_ not in rid], [rhead, g.exit], avoid=rid, edge_ok=_no_exc)
+            ctx.check(p is None, "publisher/failure-reported", k + " | every record", "a recorded failure can go unreported", witness=g.describe(p))
+        else:
+            _abstain(ctx, "publisher/failure-reported", "report loop shape", "publisher/failure-reports")
+
+    # _errorLoggerForObserver: every registered observer that is not (identity) the broken one, in order
+    e = nm.find("LogPublisher._errorLoggerForObserver")
+    qe = QO + "_errorLoggerForObserver"
+    if isinstance(e, ast.FunctionDef):
+        par = e.args.args[1].arg
+        ge = ctx.cfg(e)
+        pubs = [c for c in ast.walk(e) if isinstance(c, ast.Call) and call_name(c) == "LogPublisher" and len(c.args) == 1 and isinstance(c.args[0], ast.Starred)]
+        verdict = None   # True holds / False violated / None unknown
+        why = ""
+        if len(pubs) == 1:
+            x = pubs[0].args[0].value
+            if isinstance(x, (ast.GeneratorExp, ast.ListComp)) and len(x.generators) == 1 and isinstance(x.generators[0].target, ast.Name) \
+                    and _forward_view(x.generators[0].iter, "_observers") is not None:
+                gen = x.generators[0]
+                v = gen.target.id
+                if _forward_view(gen.iter, "_observers") == "transformed":
+                    verdict, why = False, "the other observers are taken in a different order"
+                elif src(x.elt) == v:
+                    conds = [c for c in gen.ifs if isinstance(c, ast.Compare) and len(c.ops) == 1 and {src(c.left), src(c.comparators[0])} == {v, par}]
+                    if not gen.ifs:
+                        verdict, why = False, "no observer is excluded: the failure is reported to the broken observer itself"
+                    elif len(conds) == 1 and len(gen.ifs) == 1:
+                        if isinstance(conds[0].ops[0], ast.IsNot):
+                            verdict = True
+                        elif isinstance(conds[0].ops[0], ast.Is):
+                            verdict, why = False, "only the broken observer is kept: the failure is reported to it and withheld from the healthy ones"
+            elif isinstance(x, ast.Name):
+                floops = [l2 for l2 in ast.walk(e) if isinstance(l2, ast.For) and isinstance(l2.target, ast.Name) and _forward_view(l2.iter, "_observers") == "forward"]
+                apps = [c for c in ast.walk(e) if isinstance(c, ast.Call) and isinstance(c.func, ast.Attribute) and c.func.attr == "append"
+                        and isinstance(c.func.value, ast.Name) and c.func.value.id == x.id]
+                if len(floops) == 1 and len(apps) == 1 and any(a is apps[0] for a in ast.walk(floops[0])) and src(apps[0].args[0]) == floops[0].target.id:
+                    v = floops[0].target.id
+
+                    def ident(t, v=v):
+                        return isinstance(t, ast.Compare) and len(t.ops) == 1 and {src(t.left), src(t.comparators[0])} == {v, par} and isinstance(t.ops[0], (ast.Is, ast.IsNot))
+                    gs = [(ge.node(t).ast, lab) for n in ge.ids_of(apps[0]) for t, lab in ge.edge_guards(n) if ident(ge.node(t).ast)]
+                    if not gs:
+                        verdict, why = False, "no observer is excluded: the failure is reported to the broken observer itself"
+                    elif all((isinstance(t.ops[0], ast.IsNot)) == (lab == "T") for t, lab in gs):
+                        verdict = True
+                    else:
+                        verdict, why = False, "only the broken observer is kept: the failure is reported to it and withheld from the healthy ones"
+        if verdict is None:
+            _abstain(ctx, "publisher/report-excludes-broken-observer", "construction of the error publisher", "publisher/failure-reports")
+        else:
+            ctx.check(verdict, "publisher/report-excludes-broken-observer", qe + " | observers of the error publisher", why,
+                      detail="every registered observer that `is not` the broken one, in registration order")
+    # who may write _observers (all methods of the class, helpers included)
+    acc = class_accesses(nm, cls, {"_observers"}, receivers={"self"})
+    for a in acc:
+        k = ctx.construct("twisted.logger._observer." + a.func, a.node)
+        if a.kind in ORDER_DESTROYING:
+            ctx.violation("publisher/registration-order-preserved", k, f"self._observers is modified by '{a.kind}': registration order is no longer an invariant")
+        elif a.kind == "append":
+            fn = nm.find(a.func)
+            ga = ctx.cfg(fn)
+            arg = src(a.node.args[0]) if a.node.args else ""
+            ok = any(ga.guarded(n, lambda t, arg=arg: isinstance(t, ast.Compare) and len(t.ops) == 1 and src(t.left) == arg and _is_self_attr(t.comparators[0], "_observers")
+                                and isinstance(t.ops[0], ast.NotIn), True) or
+                     ga.guarded(n, lambda t, arg=arg: isinstance(t, ast.Compare) and len(t.ops) == 1 and src(t.left) == arg and _is_self_attr(t.comparators[0], "_observers")
+                                and isinstance(t.ops[0], ast.In), False) for n in ga.ids_of(a.node))
+            ctx.check(ok, "publisher/single-registration", k, "an observer can be registered twice and would then receive every event twice")
+        else:
+            ctx.ok("publisher/registration-order-preserved", k, f"'{a.kind}' keeps the relative order of the remaining observers")
+    init = nm.find("LogPublisher.__init__")
+    if isinstance(init, ast.FunctionDef) and init.args.vararg is not None:
+        ia = [a for a in acc if a.func == "LogPublisher.__init__" and a.kind in ("assign", "rebind-empty")]
+        if ia:
+            v = ia[0].node.value
+            ok = isinstance(v, ast.Call) and isinstance(v.func, ast.Name) and v.func.id in ("list",) and len(v.args) == 1 and src(v.args[0]) == init.args.vararg.arg
+            if ok:
+                ctx.ok("publisher/registration-order-preserved", QO + "__init__ | initial list", "list(observers)")
+            else:
+                _abstain(ctx, "publisher/registration-order-preserved", "initial observer list", "publisher/registration")
+
+
+def check_filter_structure(ctx):
+    nm = _norm(ctx, FIL)
+    QF_ = "twisted.logger._filter."
+    # shouldLogEvent: predicates consulted in order, stop at the first decisive answer
+    sh = nm.find("shouldLogEvent")
+    if isinstance(sh, ast.FunctionDef):
+        g2 = ctx.cfg(sh)
+        qs = QF_ + "shouldLogEvent"
+        loops = [n for n in walk_local(sh) if isinstance(n, ast.For)]
+        if len(loops) == 1 and isinstance(loops[0].target, ast.Name) and src(loops[0].iter) == sh.args.args[0].arg:
+            lp = loops[0]
+
+            def guard_eq(n, const, pol):
+                def pred(t):
+                    return isinstance(t, ast.Compare) and len(t.ops) == 1 and isinstance(t.ops[0], (ast.Eq, ast.Is)) and \
+                        (src(t.comparators[0]).endswith("PredicateResult." + const) or src(t.left).endswith("PredicateResult." + const))
+                return g2.guarded(n, pred, pol)
+            for r in g2.ids(lambda n: n.kind == "stmt" and isinstance(n.ast, ast.Return)):
+                node = g2.node(r).ast
+                inside = any(x is node for x in ast.walk(lp))
+                v = node.value.value if isinstance(node.value, ast.Constant) else None
+                if v not in (True, False):
+                    _abstain(ctx, "filter/predicate-verdicts", "non-constant return", "filter/verdict-sequences")
+                    continue
+                if inside:
+                    ctx.check((v is True and guard_eq(r, "yes", True)) or (v is False and guard_eq(r, "no", True)), "filter/predicate-verdicts",
+                              qs + f" | return {v} inside the loop", "a predicate verdict is mapped to the wrong decision (yes must log, no must drop)")
+                else:
+                    ctx.check(v is True, "filter/predicate-verdicts", qs + " | default", "with only `maybe` answers the event must be logged")
+            for cn in g2.ids(lambda n: n.kind == "stmt" and isinstance(n.ast, ast.Continue)):
+                ctx.check(guard_eq(cn, "maybe", True), "filter/predicate-verdicts", qs + " | continue", "the next predicate is consulted after a verdict other than maybe")
+            pc = [c for c in ast.walk(lp) if isinstance(c, ast.Call) and isinstance(c.func, ast.Name) and c.func.id == lp.target.id]
+            ctx.check(len(pc) == 1 and len(pc[0].args) == 1 and src(pc[0].args[0]) == sh.args.args[1].arg, "filter/predicate-verdicts", qs + " | predicate(event)",
+                      "each predicate is not asked exactly once about the event, in the order given")
+        else:
+            _abstain(ctx, "filter/predicate-verdicts", "loop over the predicates", "filter/verdict-sequences")
+    fo = nm.find("FilteringLogObserver.__call__")
+    if isinstance(fo, ast.FunctionDef):
+        g3 = ctx.cfg(fo)
+        qo = QF_ + "FilteringLogObserver.__call__"
+        e3 = fo.args.args[1].arg
+
+        def is_should(t):
+            return isinstance(t, ast.Call) and call_name(t) == "self._shouldLogEvent" and len(t.args) == 1 and src(t.args[0]) == e3
+        pos = g3.find(lambda x: isinstance(x, ast.Call) and call_name(x) == "self._observer")
+        neg = g3.find(lambda x: isinstance(x, ast.Call) and call_name(x) == "self._negativeObserver")
+        if pos and neg and g3.find(is_should):
+            ctx.check(all(g3.guarded(n, is_should, True) for n in pos), "filter/forwards-iff-should-log", qo + " | wrapped observer",
+                      "the wrapped observer is not called exactly under shouldLogEvent(event)")
+            ctx.check(all(g3.guarded(n, is_should, False) for n in neg), "filter/forwards-iff-should-log", qo + " | negative observer",
+                      "the negative observer is not called exactly when shouldLogEvent(event) is false")
+            w = g3.must_pass([g3.entry], set(pos) | set(neg), exc=False)
+            ctx.check(w is None, "filter/forwards-iff-should-log", qo + " | every event routed", "an event can be routed to neither observer", witness=g3.describe(w))
+        else:
+            _abstain(ctx, "filter/forwards-iff-should-log", "routing calls", "filter/routing-sequences")
+    # LogLevelFilterPredicate: the levels enter the decision only through order comparisons -> three orderings are the whole domain
+    c = nm.find("LogLevelFilterPredicate.__call__")
+    cls = nm.find("LogLevelFilterPredicate")
+    if isinstance(c, ast.FunctionDef):
+        qc = QF_ + "LogLevelFilterPredicate.__call__"
+        evp = c.args.args[1].arg
+        lvl_exprs = [n for n in ast.walk(c) if isinstance(n, ast.Call) and call_name(n) == f"{evp}.get" and n.args and isinstance(n.args[0], ast.Constant) and n.args[0].value == "log_level"]
+        names = {t.id for st in ast.walk(c) if isinstance(st, ast.Assign) and st.value in lvl_exprs for t in st.targets if isinstance(t, ast.Name)}
+        names |= {t.id for st in ast.walk(c) if isinstance(st, ast.Assign) and isinstance(st.value, ast.Call) and call_name(st.value) == "self.logLevelForNamespace"
+                  for t in st.targets if isinstance(t, ast.Name)}
+        uses = [n for n in ast.walk(c) if (isinstance(n, ast.Name) and n.id in names and isinstance(n.ctx, ast.Load)) or n in lvl_exprs or
+                (isinstance(n, ast.Call) and call_name(n) == "self.logLevelForNamespace")]
+        bad = [u for u in uses if not isinstance(getattr(u, "_parent", None), (ast.Compare, ast.Assign))]
+        if uses and not bad:
+            ctx.ok("filter/level-decision-domain", qc, "the event level and the threshold are used only in comparisons: the three orderings <, =, > are the complete domain")
+        else:
+            ctx.note("filter/level-decision-domain: the levels are used outside comparisons; filter/level-decision is then evidence for the enumerated levels only")
+    # derived state (caches written by the lookup) must be discarded by every writer of the level table
+    if isinstance(cls, ast.ClassDef):
+        look = nm.find("LogLevelFilterPredicate.logLevelForNamespace")
+        table = "_logLevelsByNamespace"
+        writes_in_lookup = {a.attr for a in class_accesses(nm, cls, None, receivers={"self"}) if a.func.endswith(".logLevelForNamespace") and a.attr != table} if look is not None else set()
+        acc = class_accesses(nm, cls, None, receivers={"self"})
+        writers = sorted({a.func for a in acc if a.attr == table and not a.func.endswith("__init__")})
+        for derived in sorted(writes_in_lookup):
+            for wfn in writers:
+                fn = nm.find(wfn)
+                gw = ctx.cfg(fn)
+                wnodes = [n for a in acc if a.func == wfn and a.attr == table for n in gw.ids_of(a.node)]
+                flush = [n for a in acc if a.func == wfn and a.attr == derived and a.kind in ("clear", "rebind-empty", "assign") for n in gw.ids_of(a.node)]
+                p = None
+                for wn in wnodes:
+                    # a table write must be accompanied (before or after, on every path) by a full flush of the derived attribute
+                    if not flush or (gw.must_pass([wn], flush, exc=False) is not None and gw.must_precede(flush, [wn]) is not None):
+                        p = wn
+                ctx.check(p is None, "filter/derived-state-invalidated", f"{QF_}{wfn} | self.{derived}",
+                          f"{wfn} changes the configured levels but does not discard self.{derived}, which logLevelForNamespace fills from them: later lookups answer from stale data")
+        if not writes_in_lookup:
+            ctx.ok("filter/derived-state-invalidated", QF_ + "LogLevelFilterPredicate.logLevelForNamespace", "the lookup keeps no derived state")
+        # the table is written under the given namespace (or '') with the given level
+        s_ = nm.find("LogLevelFilterPredicate.setLogLevelForNamespace")
+        if isinstance(s_, ast.FunctionDef):
+            pn, pl = s_.args.args[1].arg, s_.args.args[2].arg
+
+            def leaves(e):
+                if isinstance(e, ast.IfExp):
+                    return leaves(e.body) + leaves(e.orelse)
+                if isinstance(e, ast.BoolOp):
+                    return [x for v in e.values for x in leaves(v)]
+                return [e]
+            for a in acc:
+                if a.func.endswith(".setLogLevelForNamespace") and a.attr == table and a.kind == "setitem" and isinstance(a.node, ast.Assign):
+                    key = a.node.targets[0].slice
+                    ls = leaves(key)
+                    if all((isinstance(x, ast.Name) and x.id == pn) or (isinstance(x, ast.Constant) and x.value == "") for x in ls):
+                        ctx.check(src(a.node.value) == pl, "filter/table-written-under-namespace", QF_ + "LogLevelFilterPredicate.setLogLevelForNamespace | stored value",
+                                  "a different value than the given level is stored")
+                    elif any(isinstance(x, ast.Name) and x.id in (pn,) for x in ls) or all(isinstance(x, ast.Constant) for x in ls):
+                        ctx.violation("filter/table-written-under-namespace", QF_ + "LogLevelFilterPredicate.setLogLevelForNamespace | key",
+                                      f"the level is stored under {src(key)}, not under the namespace given")
+                    else:
+                        _abstain(ctx, "filter/table-written-under-namespace", "key expression", "filter/most-specific-prefix")
+
+
+def check_buffer_structure(ctx):
+    nm = _norm(ctx, BUF)
+    cls = nm.find("LimitedHistoryLogObserver")
+    ctx.need(isinstance(cls, ast.ClassDef), "class LimitedHistoryLogObserver")
+    QB_ = "twisted.logger._buffer.LimitedHistoryLogObserver."
+    init = nm.find("LimitedHistoryLogObserver.__init__")
+    acc = class_accesses(nm, cls, {"_buffer"}, receivers={"self"})
+    size = init.args.args[1].arg if isinstance(init, ast.FunctionDef) and len(init.args.args) > 1 else None
+    for a in acc:
+        k = QB_ + a.func.split(".")[-1]
+        if a.kind in ("assign", "rebind-empty") and isinstance(a.node, (ast.Assign, ast.AnnAssign)):
+            v = a.node.value
+            if isinstance(v, ast.Name):   # constructor provenance through a local
+                defs = [st for st in ast.walk(init) if isinstance(st, (ast.Assign, ast.AnnAssign)) and st.value is not None and
+                        any(isinstance(t, ast.Name) and t.id == v.id for t in (st.targets if isinstance(st, ast.Assign) else [st.target]))]
+                v = defs[0].value if len(defs) == 1 else v
+            if isinstance(v, ast.Call) and call_name(v) in ("deque", "collections.deque") and size is not None and a.func.endswith("__init__"):
+                kws = {x.arg: x.value for x in v.keywords}
+                ok = (not v.args and "maxlen" in kws and src(kws["maxlen"]) == size) or \
+                     (len(v.args) == 2 and src(v.args[1]) == size and isinstance(v.args[0], (ast.List, ast.Tuple)) and not v.args[0].elts)
+                ctx.check(ok, "history/bounded-by-size", k + " | deque bound",
+                          "the history is not an (initially empty) deque bounded by exactly `size`: more or fewer than the last N events are kept")
+            else:
+                _abstain(ctx, "history/bounded-by-size", "construction of the buffer", "history/last-n-in-order")
+        elif a.kind == "append":
+            fn = nm.find(a.func)
+            evp = fn.args.args[1].arg if isinstance(fn, ast.FunctionDef) and len(fn.args.args) > 1 else None
+            ctx.check(len(a.node.args) == 1 and src(a.node.args[0]) == evp, "history/appends-at-the-end", k + " | append(event)", "something else than the event is recorded")
+        elif a.kind in ORDER_DESTROYING or a.kind in ("remove", "extend"):
+            ctx.violation("history/appends-at-the-end", k + f" | {a.kind}", f"the history buffer is modified by '{a.kind}' in {a.func}: it no longer holds the last N events oldest-first "
+                          "(or a replay consumes them)")
+    c = nm.find("LimitedHistoryLogObserver.__call__")
+    if isinstance(c, ast.FunctionDef):
+        g = ctx.cfg(c)
+        app = g.find(lambda x: isinstance(x, ast.Call) and isinstance(x.func, ast.Attribute) and x.func.attr == "append" and _is_self_attr(x.func.value, "_buffer"))
+        if app:
+            w = g.must_pass([g.entry], app, exc=False)
+            ctx.check(w is None, "history/appends-at-the-end", QB_ + "__call__ | every event", "an event can be dropped without being recorded", witness=g.describe(w))
+    r = nm.find("LimitedHistoryLogObserver.replayTo")
+    if isinstance(r, ast.FunctionDef):
+        gr = ctx.cfg(r)
+        qr = QB_ + "replayTo"
+        other = r.args.args[1].arg
+        loops = [n for n in walk_local(r) if isinstance(n, ast.For)]
+        views = [(lp, _forward_view(lp.iter, "_buffer")) for lp in loops]
+        if any(v == "transformed" for _, v in views):
+            ctx.violation("history/replays-forward", qr, "replay does not walk the buffer front (oldest) to back (newest)")
+        fw = [lp for lp, v in views if v == "forward" and isinstance(lp.target, ast.Name)]
+        if len(fw) == 1:
+            lp = fw[0]
+            ctx.ok("history/replays-forward", qr, "the loop walks self._buffer oldest first")
+            calls = [x for x in ast.walk(lp) if isinstance(x, ast.Call) and isinstance(x.func, ast.Name) and x.func.id == other]
+            if len(calls) == 1:
+                ctx.check(len(calls[0].args) == 1 and src(calls[0].args[0]) == lp.target.id, "history/replays-each-once", qr + " | otherObserver(event)",
+                          "the buffered event is not what is passed to the other observer")
+                head = gr.ids_of(lp)[0]
+                cid = gr.ids_of(calls[0])
+                st = [d for d, l in gr.succ[head] if l == "iter"]
+                p = gr.path([s_ for s_ in st if s_ not in cid], [head, gr.exit], avoid=cid, edge_ok=_no_exc)
+                ctx.check(p is None, "history/replays-each-once", qr + " | every event", "a buffered event can be skipped", witness=gr.describe(p))
+                body = [n.id for n in gr.nodes if n.ast is not None and n.kind in ("stmt", "test") and any(n.ast is x for x in ast.walk(lp)) and gr.reachable(n.id)]
+                p = gr.path(body, [gr.exit] + [d for d, l in gr.succ[head] if l == "done"], avoid=[head], edge_ok=_no_exc)
+                ctx.check(p is None, "history/replays-each-once", qr + " | runs to completion", "the replay can stop early", witness=gr.describe(p))
+            else:
+                _abstain(ctx, "history/replays-each-once", "call of the other observer", "history/last-n-in-order")
+        elif not any(v == "transformed" for _, v in views):
+            _abstain(ctx, "history/replays-forward", "no loop over self._buffer in replayTo", "history/last-n-in-order")
+
+
 def check(ctx):
+    with ctx.section("LogPublisher structure"):
+        check_publisher_structure(ctx)
+    with ctx.section("filter structure"):
+        check_filter_structure(ctx)
+    with ctx.section("history buffer structure"):
+        check_buffer_structure(ctx)
     with ctx.section("LogPublisher"):
         check_publisher(ctx)
     with ctx.section("LogLevelFilterPredicate histories"):
